@@ -631,7 +631,7 @@ func RunCheck(o CheckOpts) int {
 				lines = append(lines, fmt.Sprintf("UNDECIDED property=%s obligation=%s reason=%s", o.Property, ob.Name, ob.Reason))
 				continue
 			}
-			if ob.Kind == "anchor" || ob.Kind == "locks-declared" && false {
+			if ob.Kind == "anchor" || ob.Kind == "goroutine" && strings.HasSuffix(ob.Name, "/stale") && ledgerObs != nil {
 				// the contract's target (call site, loop, return) no longer exists: cannot tell
 				ob.Result = "undecided"
 				ob.Reason = "contract anchor no longer matches an instruction (code restructured)"
